@@ -195,9 +195,69 @@ pub fn cfg_for(tier: Tier) -> PicCfg {
     }
 }
 
+/// Every inter-picture macroblock type x every coded-block pattern (6 x 64), three stream forms:
+/// every MCBPC-P and CBPY codeword (inter sense and intra sense) with matching block presence.
+fn types_x_patterns_suite() -> SuiteReport {
+    simple_suite("all_macroblock_types_x_patterns", true, |acc| {
+        let kinds = [MbKind::Inter, MbKind::InterQ, MbKind::Inter4V, MbKind::Inter4VQ, MbKind::Intra, MbKind::IntraQ];
+        for (mode, version) in [(Mode::Sorenson, 0u8), (Mode::Sorenson, 1), (Mode::Standard, 0)] {
+            let size = if mode == Mode::Sorenson { Size::Custom8(128, 128) } else { Size::Cif };
+            let refpic = super::c12::entropy_reference(mode, version, size, 3);
+            let mut st = H263State::new(options(mode, false));
+            match decode_bytes(&mut st, &encode_pic(&refpic)) {
+                Outcome::Ok => {}
+                o => {
+                    acc.fail(json!({"kind":"params","suite":"types_x_patterns"}), format!("reference not decoded: {}", o.short()));
+                    return;
+                }
+            }
+            let mut reference = last_picture(&st).unwrap().planes;
+            for (ki, kind) in kinds.iter().enumerate() {
+                let mut hdr = refpic.hdr.clone();
+                hdr.ptype = PicType::P;
+                hdr.quant = 5 + ki as u8;
+                hdr.tr = 100 + ki as u8;
+                let (mbw, mbh) = hdr.mb_dims().unwrap();
+                let mut mbs = Vec::new();
+                for n in 0..mbw * mbh {
+                    let pattern = n % 64;
+                    let mut mb = Mb::new(*kind);
+                    mb.dquant = [1i8, -1, 2, -2][n % 4];
+                    for k in 0..4 {
+                        mb.mvd[k] = ((((n * 3 + k * 5 + ki) % 13) as i8) - 6, (((n * 5 + k * 3 + ki) % 11) as i8) - 5);
+                    }
+                    for b in 0..6 {
+                        mb.blocks[b].dc = 40 + ((n * 5 + b * 23) % 170) as u8;
+                        if mb.blocks[b].dc == 128 {
+                            mb.blocks[b].dc = 125;
+                        }
+                        if (pattern >> b) & 1 == 1 {
+                            let first = if kind.is_intra() { 1 } else { 0 };
+                            let _ = first;
+                            mb.blocks[b].events = vec![Event { run: ((b + n) % 12) as u8, level: if (n + b) % 2 == 0 { 2 } else { -3 }, force_escape: false, wide: false }];
+                        }
+                    }
+                    mbs.push(mb);
+                }
+                let pic = Pic { hdr, mbs, trailing_zero_bits: 0 };
+                acc.count_n(64, 64);
+                match check_inter(&mut st, &pic, &reference) {
+                    Err(m) => {
+                        acc.fail(json!({"kind":"params","suite":"types_x_patterns","kind_index":ki}), format!("macroblock type {:?} x all coded-block patterns ({:?} v{}): {}", kind, mode, version, m));
+                        return;
+                    }
+                    Ok((_, c, _)) => reference = c.decoded,
+                }
+            }
+        }
+        acc.sample(|| json!({"macroblock_types": 6, "patterns": 64, "forms": 3}));
+    })
+}
+
 pub fn run(ctx: &Ctx) -> i32 {
     let cfg = cfg_for(ctx.tier);
     let mut reports = vec![super::regression_suite(ctx)];
+    reports.push(types_x_patterns_suite());
     let cases = ctx.tier.pick(40_000u64, 600_000u64);
     reports.push(tape_suite(ctx, "inter_histories", cases, 8192, &move |g| history_case(g, &cfg)));
     finish(
@@ -217,6 +277,10 @@ pub fn run(ctx: &Ctx) -> i32 {
 
 pub fn replay(suite: &str, case: &Value) -> Option<Verdict> {
     match suite {
+        "all_macroblock_types_x_patterns" => Some(match types_x_patterns_suite().failure {
+            Some(f) => Verdict::fail(f.msg),
+            None => Verdict::pass(true, 0),
+        }),
         "inter_histories" => {
             let tape = super::tape_of(case)?;
             let tier = if case["tier"].as_str() == Some("thorough") { Tier::Thorough } else { Tier::Quick };
